@@ -341,17 +341,21 @@ func (ex *Exec) mIndex(s, sep *Str, last bool) Value {
 		}
 		return ex.i64(0)
 	}
-	res := ex.B.Const(64, ^uint64(0))
+	w := uint8(8)
+	if n >= 120 {
+		w = 16
+	}
+	res := ex.B.Const(w, ^uint64(0))
 	if last {
 		for i := 0; i+m <= n; i++ {
-			res = ex.B.Ite(ex.matchAt(s, sep, i), ex.B.Const(64, uint64(i)), res)
+			res = ex.B.Ite(ex.matchAt(s, sep, i), ex.B.Const(w, uint64(i)), res)
 		}
 	} else {
 		for i := n - m; i >= 0; i-- {
-			res = ex.B.Ite(ex.matchAt(s, sep, i), ex.B.Const(64, uint64(i)), res)
+			res = ex.B.Ite(ex.matchAt(s, sep, i), ex.B.Const(w, uint64(i)), res)
 		}
 	}
-	return res
+	return ex.B.Sext(res, 64)
 }
 
 func (ex *Exec) mIndexAny(fr *frame, s, chars *Str, last bool) Value {
